@@ -30,6 +30,8 @@ type Exec struct {
 	notedAll    []notedAddr
 	divCache    map[string][2]Term
 	mulSeen     map[string]bool
+	frameOn     bool
+	frameTs     []modTarget
 }
 
 func (e *Engine) NewExec(unit string) *Exec {
@@ -90,6 +92,7 @@ type frame struct {
 	entrySt  *State // state at function entry (old() for callee-level contracts)
 	variants map[*ssa.BasicBlock][]Term
 	curBlock *ssa.BasicBlock
+	autoInv  map[*ssa.BasicBlock][]*ssa.Alloc
 }
 
 type loopInfo struct {
@@ -205,7 +208,7 @@ func (x *Exec) run(fn *ssa.Function, st *State, args []Value, bindings []Value, 
 		unsup("inlining too deep at %s", fn)
 	}
 	fr := &frame{fn: fn, vals: map[ssa.Value]Value{}, in: map[*ssa.BasicBlock][]edge{}, bindings: bindings,
-		params: args, contract: contract, loops: findLoops(fn), inline: inline, variants: map[*ssa.BasicBlock][]Term{}}
+		params: args, contract: contract, loops: findLoops(fn), inline: inline, variants: map[*ssa.BasicBlock][]Term{}, autoInv: map[*ssa.BasicBlock][]*ssa.Alloc{}}
 	for i, p := range fn.Params {
 		fr.vals[p] = args[i]
 	}
@@ -656,6 +659,12 @@ func (e *Engine) onlyDirectUses(v ssa.Value, depth int) bool {
 					if c.Call.Value != u {
 						return false
 					}
+				case *ssa.Store:
+					// stored into a local function variable that is only ever called
+					la, ok := c.Addr.(*ssa.Alloc)
+					if !ok || la.Heap || c.Val != u || !onlyCalled(la) {
+						return false
+					}
 				default:
 					return false
 				}
@@ -745,6 +754,7 @@ func (x *Exec) store(fr *frame, s *State, addr, val Value, pos token.Pos) {
 		return
 	}
 	x.nilCheck(fr, s, addr, pos, "stored-to pointer")
+	x.frameCheckLoc(fr, s, addr.L[0], addr.L[1], int64(len(val.L)), pos)
 	x.storeAt(s, addr.L[0], addr.L[1], val)
 }
 
@@ -1342,6 +1352,7 @@ func (x *Exec) mapUpdate(fr *frame, s *State, in *ssa.MapUpdate) {
 	if isInterface(mt.Elem()) && !isInterface(val.T) {
 		val = x.makeInterface(s, val, mt.Elem())
 	}
+	x.frameCheckMap(fr, s, m.L[0], in.Pos())
 	x.mapStore(s, m, key, val, mt)
 }
 
@@ -1485,4 +1496,126 @@ func (x *Exec) mulTerm(a, b Term) Term {
 		x.C.Assume(Eq(t, BVOp("bvmul", a, b)))
 	}
 	return t
+}
+
+// onlyCalled: every load of the local function variable is used only as the callee of a call.
+func onlyCalled(a *ssa.Alloc) bool {
+	for _, r := range *a.Referrers() {
+		switch u := r.(type) {
+		case *ssa.DebugRef:
+		case *ssa.Store:
+			if u.Addr != a {
+				return false
+			}
+		case *ssa.UnOp:
+			if u.Op != token.MUL {
+				return false
+			}
+			for _, lr := range *u.Referrers() {
+				switch c := lr.(type) {
+				case *ssa.DebugRef:
+				case *ssa.Call:
+					if c.Call.Value != u {
+						return false
+					}
+					for _, arg := range c.Call.Args {
+						if arg == u {
+							return false
+						}
+					}
+				case *ssa.Defer:
+					if c.Call.Value != u {
+						return false
+					}
+				default:
+					return false
+				}
+			}
+		default:
+			return false
+		}
+	}
+	return true
+}
+
+// ---- frame discipline (Dafny style): inside a unit whose contract has a
+// modifies clause, every heap write must target a location the clause names or
+// an object allocated during the call. In exchange, every location outside the
+// clause may be assumed to hold its entry value wherever the heap is havocked.
+
+func (x *Exec) allowedLoc(ref, off Term) Term {
+	return Or(App(SBool, ">=", ref, x.entry.Frontier), inTargets(x.frameTs, ref, off))
+}
+
+func (x *Exec) frameCheckLoc(fr *frame, s *State, ref, off Term, n int64, pos token.Pos) {
+	if !x.frameOn || x.C.noDefine > 0 {
+		return
+	}
+	var cs []Term
+	for i := int64(0); i < n; i++ {
+		cs = append(cs, x.allowedLoc(ref, offAdd(off, i)))
+	}
+	x.C.Oblige(x.oblName(fr.fn, "frame"), "frame", x.pos(pos), "write stays inside the modifies clause (or a fresh object)", s.Reach, And(cs...))
+}
+
+// frameCheckRange: a write to leaves [off, off+len) of object ref.
+func (x *Exec) frameCheckRange(fr *frame, s *State, ref, off, ln Term, pos token.Pos, what string) {
+	if !x.frameOn || x.C.noDefine > 0 {
+		return
+	}
+	o := x.C.BoundVar("o", SBV64)
+	prop := Or(App(SBool, ">=", ref, x.entry.Frontier),
+		Forall([]Term{o}, Implies(BVCmp("bvult", BVOp("bvsub", o, off), ln), inTargets(x.frameTs, ref, o))))
+	x.C.Oblige(x.oblName(fr.fn, "frame"), "frame", x.pos(pos), what+" stays inside the modifies clause (or a fresh object)", s.Reach, prop)
+}
+
+func (x *Exec) frameCheckObj(fr *frame, s *State, ref Term, pos token.Pos, what string) {
+	if !x.frameOn || x.C.noDefine > 0 {
+		return
+	}
+	var cs []Term
+	cs = append(cs, App(SBool, ">=", ref, x.entry.Frontier))
+	for _, t := range x.frameTs {
+		if t.kind == "obj" {
+			cs = append(cs, Eq(ref, t.ref))
+		}
+	}
+	x.C.Oblige(x.oblName(fr.fn, "frame"), "frame", x.pos(pos), what+" stays inside the modifies clause (or a fresh object)", s.Reach, Or(cs...))
+}
+
+func (x *Exec) frameCheckMap(fr *frame, s *State, ref Term, pos token.Pos) {
+	if !x.frameOn || x.C.noDefine > 0 {
+		return
+	}
+	cs := []Term{App(SBool, ">=", ref, x.entry.Frontier)}
+	for _, t := range x.frameTs {
+		if t.kind == "maps" {
+			cs = append(cs, Eq(ref, t.ref))
+		}
+	}
+	x.C.Oblige(x.oblName(fr.fn, "frame"), "frame", x.pos(pos), "map write stays inside the modifies clause (or a fresh map)", s.Reach, Or(cs...))
+}
+
+func (x *Exec) frameCheckAll(fr *frame, s *State, pos token.Pos, what string) {
+	if !x.frameOn || x.C.noDefine > 0 {
+		return
+	}
+	x.C.Oblige(x.oblName(fr.fn, "frame"), "frame", x.pos(pos), what+" may write anything, but the unit has a modifies clause", s.Reach, False)
+}
+
+// assumeFrame: locations allocated at entry and outside the modifies clause
+// still hold their entry values (justified by the per-write checks above).
+func (x *Exec) assumeFrame(s *State, sorts []Sort) {
+	if !x.frameOn || x.C.noDefine > 0 {
+		return
+	}
+	for _, k := range sorts {
+		if s.Heaps[k].S == x.entry.Heaps[k].S {
+			continue
+		}
+		r := x.C.BoundVar("r", SInt)
+		o := x.C.BoundVar("o", SBV64)
+		x.C.Assume(Implies(s.Reach, Forall([]Term{r, o}, Implies(And(App(SBool, "<", IntLit(0), r), App(SBool, "<", r, x.entry.Frontier), Not(inTargets(x.frameTs, r, o))),
+			Eq(Select(Select(s.Heaps[k], r, ObjSort(k)), o, k), Select(Select(x.entry.Heaps[k], r, ObjSort(k)), o, k))))))
+	}
 }
